@@ -33,6 +33,10 @@ def owner_report(prog: Program, pid: str) -> Report:
 
 def share(prog: Program, rep: Report, owner: str, rules: tuple, as_rule: str, text: str, floor: int = 1, only=None) -> int:
     """Copy the obligations of `rules` of property `owner` into `rep` as `as_rule`. `only(o)` filters."""
+    if prog.__dict__.get("_owner_running"):
+        # an owner is being evaluated for somebody else: only its own rules are wanted, and borrowing in
+        # turn could go round in a circle (C06 <-> C13)
+        return 0
     sub = owner_report(prog, owner)
     known = {e["key"] for e in load_known_findings() if e["property"] == owner and e["status"] == "open"}
     rep.rule(as_rule, f"{text} (shared with {owner} {', '.join(rules)})", floor)
